@@ -106,6 +106,13 @@ def explicit3(tier, seed):
     yield from explicit2(tier, seed)
     yield from nested_cases(tier, seed)
     yield from concurrent_big_value_cases(tier, seed)
+    # batches recorded as a summary (over 256 kB) that were decided early with branches still queued or running, then replayed: the
+    # rebuilt BatchResult (items, statuses AND completion reason) is what the first delivery was
+    from checks.c09 import window_cases
+
+    for c in window_cases(tier, seed):
+        if c["label"].startswith("oversized-decided-early"):
+            yield dict(c, label="c02-" + c["label"])
 
 
 SPEC = Spec(
